@@ -5,7 +5,7 @@ out=sweep-RESULTS.md
 echo "# Thorough-tier sensitivity sweep (in-memory mutants of the anchored functions; behaviour-preserving rewrites must stay silent)" > $out
 echo >> $out
 echo '```' >> $out
-for i in 01 02 03 04 05 06 07 08 09 10 11 12 13 14 15 17 18 19; do
+for i in 01 02 03 04 05 06 07 08 09 10 11 12 13 14 15 16 17 18 19; do
   ./check C$i thorough 2>&1 | grep -E "^\[C$i (thorough|sweep)\]" >> $out
 done
 echo '```' >> $out
